@@ -1,6 +1,7 @@
 import BoltonsVerif.Common
 import BoltonsVerif.C13.Model
 import BoltonsVerif.C13.Session
+import BoltonsVerif.C13.Hygiene
 /-
 C13 line protocol.  One line = one whole case (a function, the injected / expected
 lists, the options, and any number of calls):
@@ -13,7 +14,8 @@ lists, the options, and any number of calls):
   call `p1,p2/k:v,k:v` (a dash on either side of the slash = empty).
 
 Output (one line): `err <Error>` or
-  `S <signature> ; M <name doc module wrapped async> ; A <annotations of the parameters, return> ;
+  `S <signature> ; M <name doc module wrapped async> ; A <annotations of the parameters, return;
+   `*` for a parameter the request removed and added again> ;
    D <def items> ; I <invocation items> (source text modulo white space) ; <call outcome>,<call outcome>…`
   call outcome: `E` (TypeError while binding), `?` (body did not evaluate), or
   `R<pos>/<kws>` (what `_call` received) followed, for plain wraps, by `=B<bound of f on that call>`.
@@ -112,10 +114,40 @@ def showBound (b : Bound) : String :=
     | some l => showPairs (sortPairs l)
   s!"{showPairs b.pos}|{st}|{showPairs b.kwo}|{ds}"
 
-def outcome (f w : Func) (plain : Bool) (c : Call) : String :=
+/-- annotations of the parameters as `inspect.signature` shows them; `*` for a parameter the
+    request removed and added again (`readded`): the statement leaves its annotation open -/
+def showAnns (w : Func) (mask : List Name) : String :=
+  ",".intercalate ((paramNames w).map fun n =>
+    if mask.contains n then s!"{n}:*" else s!"{n}:{showOpt (get? n w.ann)}")
+
+/-- the spellings the harness uses: `_call` = 90, `__call` = 92, longer ones are never parameter
+    names of a case; `_func` = 91 -/
+def cnId : Nat → Name
+  | 0 => 90
+  | 1 => 92
+  | k + 2 => 1000000 + k
+
+def funcKeyId : Name := 91
+
+/-- does the body of a function built by `update_wrapper` reach the user's wrapper (`Hygiene.lean`)?
+    `byWrapper = false`: the body was written by the harness itself (builder histories) -/
+def reaches (w : Func) (byWrapper : Bool) : Bool :=
+  !byWrapper || (FB.fromFunc w).callee cnId funcKeyId == Callee.userWrapper
+
+/-- the function name of a case: `fn`, `_call`, `_func`, `<lambda>` -/
+def fnameId : Nat → Name
+  | 1 => 90
+  | 2 => 91
+  | 3 => 85
+  | _ => 93
+
+def showName (f w : Func) : String := if w.name = f.name then "1" else s!"?{w.name}"
+
+def outcome (f w : Func) (plain : Bool) (c : Call) (byWrapper : Bool := false) : String :=
   match bind (sigOf w) c with
   | none => "E"
   | some _ =>
+    if !reaches w byWrapper then "!shadowed" else
     match callWrapper w c with
     | none => "?"
     | some c' =>
@@ -140,23 +172,6 @@ def flags? (s : String) : Option (Opts × Nat) :=
       some (⟨a = '1', b = '1'⟩, c.toNat - '0'.toNat) else none
   | _ => none
 
-/-- `wraps` applied again on top of `w` (plain), `n` more times; newest first -/
-def stackUp (o : Opts) : Nat → List Func → Except Err (List Func)
-  | 0, ws => .ok ws
-  | _, [] => .ok []
-  | n + 1, w :: ws =>
-    match updateWrapper w [] [] o with
-    | .ok w' => stackUp o n (w' :: w :: ws)
-    | .error e => .error e
-
-/-- a call travelling down a stack of wrappers (each user wrapper calls the next function with
-    what it received); result = what the innermost user wrapper receives -/
-def travel : List Func → Call → Option Call
-  | [], c => some c
-  | w :: ws, c => match callWrapper w c with
-    | some c' => travel ws c'
-    | none => none
-
 def outcomeStack (f : Func) (ws : List Func) (plain : Bool) (c : Call) : String :=
   match ws with
   | [] => "?"
@@ -164,6 +179,7 @@ def outcomeStack (f : Func) (ws : List Func) (plain : Bool) (c : Call) : String 
     match bind (sigOf top) c with
     | none => "E"
     | some _ =>
+      if !(ws.all fun w => reaches w true) then "!shadowed" else
       match travel ws c with
       | none => "?"
       | some c' =>
@@ -189,14 +205,14 @@ def bops? (s : String) : Option (List BOp) :=
   if s = "-" then some [] else (splitOnChar s ',').mapM bop?
 
 /-- builder histories: `B <the 11 function fields> <ops> <call>*`, ops = `r3,a6:-,a6:41,k6:-,k6:42` -/
-def handleB (toks : List String) : String :=
+def handleB (fn : Name) (toks : List String) : String :=
   match toks with
   | a :: d :: va :: ko :: kd :: vk :: an :: rt :: asy :: doc :: md :: ops :: calls =>
     match natList? a, natList? d, optNat? va, natList? ko, pairs? kd, optNat? vk, pairs? an,
           optNat? rt, asy.toNat?, optNat? doc, optNat? md, bops? ops, calls.mapM call? with
     | some a, some d, some va, some ko, some kd, some vk, some an, some rt, some asy, some doc,
       some md, some ops, some calls =>
-      let f : Func := ⟨1, 1, doc, md, a, va, ko, vk, d, kd, an, rt, asy != 0, none, []⟩
+      let f : Func := ⟨1, fn, doc, md, a, va, ko, vk, d, kd, an, rt, asy != 0, none, []⟩
       match (FB.fromFunc f).run ops with
       | .error e => s!"err {showErr e}"
       | .ok fb =>
@@ -205,10 +221,10 @@ def handleB (toks : List String) : String :=
         match fb.getFunc 2 none fb.invocationSpecs with
         | .error e => s!"{hdr} ; err {showErr e}"
         | .ok w =>
-          let anns := ",".intercalate ((paramNames w).map fun n => s!"{n}:{showOpt (get? n w.ann)}")
+          let anns := showAnns w (readded ops)
           let outs := calls.map (outcome f w false)
           let asyS := if w.isAsync then "1" else "0"
-          s!"{hdr} ; S {showSig (sigOf w)} ; M {w.name} {showOpt w.doc} {showOpt w.module} {showOpt w.wrapped} {asyS} ; A {anns} r:{showOpt w.retAnn} ; {",".intercalate outs}"
+          s!"{hdr} ; S {showSig (sigOf w)} ; M {showName f w} {showOpt w.doc} {showOpt w.module} {showOpt w.wrapped} {asyS} ; A {anns} r:{showOpt w.retAnn} ; {",".intercalate outs}"
     | _, _, _, _, _, _, _, _, _, _, _, _, _ => "bad-op"
   | _ => "bad-op"
 
@@ -245,13 +261,39 @@ def showRes : Res → String
   | .skip => "s"
   | .edited => "m"
 
-def showFuncBlock (w : Func) (calls : Option (List Call)) : String :=
-  let anns := ",".intercalate ((paramNames w).map fun n => s!"{n}:{showOpt (get? n w.ann)}")
+def showFuncBlock (f w : Func) (mask : List Name) (byWrapper : Bool) (calls : Option (List Call)) : String :=
+  let anns := showAnns w mask
   let asyS := if w.isAsync then "1" else "0"
-  let base := s!"S {showSig (sigOf w)} ; M {w.name} {showOpt w.doc} {showOpt w.module} {showOpt w.wrapped} {asyS} ; A {anns} r:{showOpt w.retAnn}"
+  let base := s!"S {showSig (sigOf w)} ; M {showName f w} {showOpt w.doc} {showOpt w.module} {showOpt w.wrapped} {asyS} ; A {anns} r:{showOpt w.retAnn}"
   match calls with
   | none => base
-  | some cs => s!"{base} ; C {",".intercalate (cs.map (outcome w w false))}"
+  | some cs => s!"{base} ; C {",".intercalate (cs.map fun c => outcome w w false c byWrapper)}"
+
+def reqMask : Req → List Name
+  | .wrap _ inj exp _ => readdedW inj exp
+  | .hist _ ops => readded ops
+  | _ => []
+
+def reqTarget : Req → Nat
+  | .wrap t _ _ _ => t
+  | .hist t _ => t
+  | .setKwd t _ _ => t
+  | .setAnn t _ _ => t
+
+/-- per function of a session: the names whose annotation is left open - those its own request
+    removed and added again, and those left open in the function it was built from -/
+def masks : List (List Name) → List Req → List Res → List (List Name)
+  | ms, r :: rs, .built :: qs => masks (ms ++ [(ms[reqTarget r]?).getD [] ++ reqMask r]) rs qs
+  | ms, _ :: rs, _ :: qs => masks ms rs qs
+  | ms, _, _ => ms
+
+/-- per function of a session: was it built by `update_wrapper` (then its body is the one
+    `update_wrapper` writes, callee picked by the loop of `Hygiene.lean`)? -/
+def byWrap : List Bool → List Req → List Res → List Bool
+  | bs, .wrap _ _ _ _ :: rs, .built :: qs => byWrap (bs ++ [true]) rs qs
+  | bs, _ :: rs, .built :: qs => byWrap (bs ++ [false]) rs qs
+  | bs, _ :: rs, _ :: qs => byWrap bs rs qs
+  | bs, _, _ => bs
 
 def sibling? (s : String) (f : Func) : Option (Option Func) :=
   if s = "-" then some none else
@@ -263,7 +305,7 @@ def sibling? (s : String) (f : Func) : Option (Option Func) :=
     | _, _, _, _, _, _ => none
   | _ => none
 
-def handleW (toks : List String) : String :=
+def handleW (fn : Name) (toks : List String) : String :=
   match toks with
   | a :: d :: va :: ko :: kd :: vk :: an :: rt :: asy :: doc :: md :: sib :: rest =>
     match natList? a, natList? d, optNat? va, natList? ko, pairs? kd, optNat? vk, pairs? an,
@@ -271,30 +313,30 @@ def handleW (toks : List String) : String :=
           (rest.dropWhile isStepTok).mapM call? with
     | some a, some d, some va, some ko, some kd, some vk, some an, some rt, some asy, some doc,
       some md, some reqs, some calls =>
-      let f : Func := ⟨1, 1, doc, md, a, va, ko, vk, d, kd, an, rt, asy != 0, none, []⟩
+      let f : Func := ⟨1, fn, doc, md, a, va, ko, vk, d, kd, an, rt, asy != 0, none, []⟩
       match sibling? sib f with
       | none => "bad-op"
       | some sb =>
         let base := f :: sb.toList
         let fin := run (St.init base) reqs
+        let ms := masks (base.map fun _ => []) reqs fin.2
+        let bw := byWrap (base.map fun _ => false) reqs fin.2
         let blocks := fin.1.view.zipIdx.map fun (w, i) =>
-          showFuncBlock w (if i < base.length then none else some calls)
+          showFuncBlock f w ((ms[i]?).getD []) ((bw[i]?).getD false) (if i < base.length then none else some calls)
         let res := if fin.2.isEmpty then "-" else ",".intercalate (fin.2.map showRes)
         " || ".intercalate (res :: blocks)
     | _, _, _, _, _, _, _, _, _, _, _, _, _ => "bad-op"
   | _ => "bad-op"
 
-def handle (line : String) : String :=
-  match words line with
-  | "B" :: toks => handleB toks
-  | "W" :: toks => handleW toks
+def handleP (fn : Name) (toks : List String) : String :=
+  match toks with
   | a :: d :: va :: ko :: kd :: vk :: an :: rt :: asy :: doc :: md :: inj :: exp :: fl :: calls =>
     match natList? a, natList? d, optNat? va, natList? ko, pairs? kd, optNat? vk, pairs? an,
           optNat? rt, asy.toNat?, optNat? doc, optNat? md, natList? inj, optPairs? exp, flags? fl,
           calls.mapM call? with
     | some a, some d, some va, some ko, some kd, some vk, some an, some rt, some asy, some doc,
       some md, some inj, some exp, some o, some calls =>
-      let f : Func := ⟨1, 1, doc, md, a, va, ko, vk, d, kd, an, rt, asy != 0, none, []⟩
+      let f : Func := ⟨1, fn, doc, md, a, va, ko, vk, d, kd, an, rt, asy != 0, none, []⟩
       match updateWrapper f inj exp o.1 with
       | .error e => s!"err {showErr e}"
       | .ok w1 =>
@@ -303,12 +345,28 @@ def handle (line : String) : String :=
       | .ok [] => "bad-op"
       | .ok (w :: ws) =>
         let plain := inj.isEmpty && exp.isEmpty
-        let anns := ",".intercalate ((paramNames w).map fun n => s!"{n}:{showOpt (get? n w.ann)}")
+        let anns := showAnns w (readdedW inj exp)
         let fb := FB.fromFunc w
         let outs := calls.map (outcomeStack f (w :: ws) plain)
         let asyS := if w.isAsync then "1" else "0"
-        s!"S {showSig (sigOf w)} ; M {w.name} {showOpt w.doc} {showOpt w.module} {showOpt w.wrapped} {asyS} ; A {anns} r:{showOpt w.retAnn} ; D {showSpecs fb.sigSpecs} ; I {showSpecs (sortKwSpecs w.body)} ; {",".intercalate outs}"
+        s!"S {showSig (sigOf w)} ; M {showName f w} {showOpt w.doc} {showOpt w.module} {showOpt w.wrapped} {asyS} ; A {anns} r:{showOpt w.retAnn} ; D {showSpecs fb.sigSpecs} ; I {showSpecs (sortKwSpecs w.body)} ; {",".intercalate outs}"
     | _, _, _, _, _, _, _, _, _, _, _, _, _, _, _ => "bad-op"
   | _ => "bad-op"
+
+def dispatch (fn : Name) : List String → String
+  | "B" :: toks => handleB fn toks
+  | "W" :: toks => handleW fn toks
+  | toks => handleP fn toks
+
+/-- an optional first token `F<k>` says what the function is called (`fnameId`; default `fn`) -/
+def handle (line : String) : String :=
+  match words line with
+  | [] => "bad-op"
+  | t :: toks =>
+    if t.front = 'F' then
+      match (t.drop 1).toString.toNat? with
+      | some k => dispatch (fnameId k) toks
+      | none => "bad-op"
+    else dispatch (fnameId 0) (t :: toks)
 
 end C13.Driver
